@@ -173,7 +173,8 @@ POLY_FUNCS = ["derivative", "gradient", "hessian", "poly_divmod", "poly_divide",
               "set_dimensions", "align_polynomials", "align_exponents", "align_indeterminants",
               "align_shape", "call", "equal", "not_equal", "str", "pickle", "aspolynomial", "clean",
               "boolpoly", "boolpoly", "astype_ops", "where_kw", "where_kw", "sequence",
-              "numeric_args", "numeric_args", "copyto_poly", "foreign_arrays", "print_small"]
+              "numeric_args", "numeric_args", "copyto_poly", "foreign_arrays", "print_small",
+              "scalar_axis", "save_negzero"]
 
 
 class ArgumentMutated(Exception):
@@ -397,6 +398,46 @@ def call_polyfunc(numpoly, name, a, b):
                         raise ArgumentMutated(
                             f"clean_attributes(retain_coefficients={rc}, retain_names={rn}) modified "
                             f"its argument: {changed(before, snapshot(target))}")
+        return out
+    if name == "scalar_axis":
+        # 0-d operands with an explicit axis (valid: 0 / -1; invalid: 1), returning and raising
+        scalars = [a if not a.ndim else a.ravel()[0], b if not b.ndim else b.ravel()[0]]
+        out = []
+        for scalar in scalars:
+            before = snapshot(scalar)
+            for fname in ("argmax", "argmin", "amax", "amin", "sum", "prod", "cumsum", "mean",
+                          "max", "min", "all", "any", "count_nonzero"):
+                for ns in (numpoly, numpy):
+                    for axis in (0, -1, 1, None):
+                        try:
+                            out.append(getattr(ns, fname)(scalar, axis=axis))
+                        except Exception as err:  # pylint: disable=broad-except
+                            out.append(type(err).__name__)
+                        if changed(before, snapshot(scalar)):
+                            raise ArgumentMutated(
+                                f"{ns.__name__}.{fname}(0-d polynomial, axis={axis}) modified its "
+                                f"argument: {changed(before, snapshot(scalar))}")
+        return out
+    if name == "save_negzero":
+        # writing a polynomial to text leaves every byte of it alone (negative zeros included)
+        import io
+        base = numpy.array([-0.0, 1.5, 0.0, -2.0])
+        polys = [numpoly.polynomial_from_attributes([[0], [1]], [base, -base], names=a.names[:1]),
+                 numpoly.negative(numpoly.polynomial([1.5, 0.0]) * numpoly.symbols(a.names[0]) + [0.0, 2.0]),
+                 numpoly.polynomial(base[:1] * 1.0)]
+        out = []
+        for poly in polys:
+            before = snapshot(poly)
+            for writer in (numpoly.savetxt, numpy.savetxt):
+                handle = io.StringIO()
+                try:
+                    writer(handle, poly)
+                    out.append(len(handle.getvalue()))
+                except Exception as err:  # pylint: disable=broad-except
+                    out.append(type(err).__name__)
+                if changed(before, snapshot(poly)):
+                    raise ArgumentMutated(f"{writer.__module__}.savetxt changed the saved polynomial: "
+                                          f"{changed(before, snapshot(poly))}")
         return out
     if name == "print_small":
         # printing with suppress_small / numpy's suppress option, on scalars with tiny coefficients
